@@ -63,10 +63,22 @@ RECURSIVE Offs(_, _, _)
 Cat(ss, j) == IF j > Len(ss) THEN <<>> ELSE ss[j] \o Cat(ss, j + 1)
 Offs(ss, j, off) == IF j > Len(ss) THEN <<>> ELSE <<off>> \o Offs(ss, j + 1, off + Len(ss[j]))
 AnArgs(c, args, j) == IF j > Len(args) THEN <<>> ELSE <<An(c, args[j])>> \o AnArgs(c, args, j + 1)
-NodeRec(k, fn, int, iv, size, kids) == [k |-> k, fn |-> fn, int |-> int, iv |-> iv, size |-> size, kids |-> kids]
+NodeRec(k, fn, int, iv, size, kids, varies) ==
+  [k |-> k, fn |-> fn, int |-> int, iv |-> iv, size |-> size, kids |-> kids, varies |-> varies]
+\* can the comparison of two independent quantities with these exact intervals come out both ways?
+CanBeTrue(fn, a, b) ==
+  CASE fn = "<" -> B!Lt(a.lo, b.hi)
+    [] fn = "<=" -> B!Le(a.lo, b.hi)
+    [] fn = ">" -> B!Gt(a.hi, b.lo)
+    [] fn = ">=" -> B!Ge(a.hi, b.lo)
+    [] fn = "==" -> B!Le(a.lo, b.hi) /\ B!Le(b.lo, a.hi)
+    [] fn = "!=" -> ~(a.lo = a.hi /\ b.lo = b.hi /\ a.lo = b.lo)
+Negated(fn) == CASE fn = "<" -> ">=" [] fn = "<=" -> ">" [] fn = ">" -> "<=" [] fn = ">=" -> "<"
+                 [] fn = "==" -> "!=" [] fn = "!=" -> "=="
+CmpVaries(fn, a, b) == CanBeTrue(fn, a, b) /\ CanBeTrue(Negated(fn), a, b)
 An(c, t) ==
-  CASE t.k = "big" -> <<NodeRec("big", "", TRUE, Pt(B!FromLimbs(t.neg, t.l)), 1, <<>>)>>
-    [] t.k = "var" -> <<NodeRec("var", "", TRUE, VarIv(c, t.n), 1, <<>>)>>
+  CASE t.k = "big" -> <<NodeRec("big", "", TRUE, Pt(B!FromLimbs(t.neg, t.l)), 1, <<>>, FALSE)>>
+    [] t.k = "var" -> <<NodeRec("var", "", TRUE, VarIv(c, t.n), 1, <<>>, TRUE)>>
     [] t.k = "op" ->
          LET subs == AnArgs(c, t.args, 1)
              all == Cat(subs, 1)
@@ -79,9 +91,12 @@ An(c, t) ==
                      [] t.fn = "$upper_bound" -> Pt(a(1).hi)
                      [] t.fn = "$lower_bound" -> Pt(a(1).lo)
                      [] OTHER -> NoIv
-         IN  <<NodeRec("op", t.fn, t.fn \in IntFns, iv, 1 + Len(all), Offs(subs, 1, 1))>> \o all
+             varies == IF t.fn \in IntFns THEN iv.lo # iv.hi ELSE CmpVaries(t.fn, a(1), a(2))
+         IN  <<NodeRec("op", t.fn, t.fn \in IntFns, iv, 1 + Len(all), Offs(subs, 1, 1), varies)>> \o all
 
-IsConstNode(x) == x.int /\ x.iv.lo = x.iv.hi
+\* not evaluated at run time under any reading: a one-point integer, or a comparison that can
+\* only come out one way
+IsConstNode(x) == IF x.int THEN x.iv.lo = x.iv.hi ELSE ~x.varies
 
 \* nodes that are evaluated at run time: reachable from the root through non-constant nodes
 RECURSIVE RunTime(_, _)
